@@ -333,7 +333,7 @@ def mutate(t, mut):
             t *= M
         elif k == 1:
             t.reify()
-        elif k == 2 and n:
+        elif k == 2 and n and t[idx % n].end is not None:
             t[idx % n].end.x = val
         elif k == 3 and n > 1:
             del t[n - 1]
